@@ -212,3 +212,69 @@ func verifC16_sched() {
 	c.CloseNow()
 	vObserve("c16sched", len(frames))
 }
+
+// C16.two-closers: a local Close and a peer-initiated close (the echo of the peer's Close frame) both reach writeClose
+// while a third party (a Ping stuck in the transport) holds the frame lock, in either order; when the transport lets go
+// at most one Close frame may appear on the wire. (On the current tree the closer that finds the Close frame already
+// claimed closes the connection at once, so that none is written at all in these schedules.)
+func verifC16_two_closers() {
+	client := vParam("client", 1) == 1
+	vInstallRand()
+	pc := vFrame{fin: true, opcode: 8, masked: !client, payload: []byte{0x03, 0xe9}}
+	if pc.masked {
+		copy(pc.key[:], vBytes("key", 4))
+	}
+	t := vNewTransport(vEncodeFrame(pc))
+	t.endMode = vEndBlock
+	t.holdAt = 1
+	c := vNewConn(t, client, nil, 16, 64)
+	done := make(chan struct{}, 3)
+	go func() {
+		ctx, cancel := context.WithTimeout(vBG, 3*time.Second)
+		c.Ping(ctx)
+		cancel()
+		done <- struct{}{}
+	}()
+	vGhostSettle() // the Ping is stuck in the transport, holding the frame lock
+	localFirst := vChoose("localFirst", 2) == 1
+	reader := func() {
+		c.Read(vBG) // meets the peer's Close frame and echoes it
+		done <- struct{}{}
+	}
+	closer := func() {
+		c.Close(StatusNormalClosure, "")
+		done <- struct{}{}
+	}
+	if localFirst {
+		go closer()
+		vGhostSettle()
+		go reader()
+	} else {
+		go reader()
+		vGhostSettle()
+		go closer()
+	}
+	vGhostSettle() // both closers are past their check and queue for the frame lock (or have been refused)
+	close(t.release)
+	for i := 0; i < 3; i++ {
+		<-done
+	}
+	vReach("C16.two-closers.done")
+	frames, _ := vParseWritten(t.out)
+	nClose, dataAfter := 0, 0
+	for _, f := range frames {
+		if nClose > 0 && f.opcode <= 2 {
+			dataAfter++
+		}
+		if f.opcode == 8 {
+			nClose++
+		}
+	}
+	vAssert(nClose <= 1, "C16.two-closers.single-close-frame")
+	vAssert(dataAfter == 0, "C16.two-closers.no-data-after-close")
+	if nClose == 1 {
+		vReach("C16.two-closers.close-sent")
+	}
+	c.CloseNow()
+	vObserve("two-closers", localFirst, nClose)
+}
